@@ -18,6 +18,7 @@ PG = "pdfminer.pdfpage.PDFPage"
 
 def run(model: Model, rep: Report) -> None:
     _selection_breaks(model, rep)
+    _ordered_corners(model, rep)
     rep.explanation = (
         "C04: decides the structural part of page-tree handling: the inheritable-attribute set (Table 30) and the nearest-ancestor merge, "
         "document-order traversal with a visited-set guard dominating the recursion, that the page limit is tested on every path through the "
@@ -27,7 +28,7 @@ def run(model: Model, rep: Report) -> None:
     fo = Folder(model)
     pg = model.cls(PG)
     # ---------------------------------------------------------------- R1
-    r1 = rep.rule("C04-R1", "ORDER", "depth-first Kids order, nearest-ancestor inheritance of exactly the Table 30 attributes, visited-set guard", 7)
+    r1 = rep.rule("C04-R1", "ORDER", "depth-first Kids order, nearest-ancestor inheritance of exactly the Table 30 attributes, visited-set guard", 8)
     try:
         inh = fo.fold(pg.module, pg.attrs["INHERITABLE_ATTRS"], pg)
     except (KeyError, Unfoldable):
@@ -102,8 +103,15 @@ def run(model: Model, rep: Report) -> None:
     oky = bool(ys) and unparse(ys[0].value).replace(" ", "") == f"({_objid_name(dfs)},{props})"
     r1.check(oky, site(dfs), dfs.qualname, "a /Page node yields (object id, merged attributes)", why=f"yields {unparse(ys[0].value) if ys else None}")
     cp = model.func(PG + ".create_pages")
-    src = unparse(cp.node)
-    r1.check("depth_first_search(document.catalog['Pages'], document.catalog)" in src, site(cp), cp.qualname, "the walk starts at catalog /Pages", why="root of the walk changed")
+    roots = [c for c in walk_no_nested(cp.node) if isinstance(c, ast.Call) and (dotted(c.func) or "") == dfs.name]
+    if not roots:
+        raise AnchorMissing("create_pages: call of depth_first_search not found")
+    for c in roots:
+        a = [unparse(x) for x in c.args] + [f"{k.arg}={unparse(k.value)}" for k in c.keywords]
+        r1.check(bool(a) and a[0] == "document.catalog['Pages']", site(cp, c), cp.qualname, "the walk starts at catalog /Pages", why=f"root of the walk is {a[:1]}")
+        par = c.args[1] if len(c.args) > 1 else next((k.value for k in c.keywords if k.arg == parent_p), None)
+        empty = par is not None and ((isinstance(par, ast.Dict) and not par.keys) or (isinstance(par, ast.Call) and (dotted(par.func) or "") == "dict" and not par.args and not par.keywords))
+        r1.check(empty, site(cp, c), cp.qualname, "the root of the page tree has no ancestor: nothing is inherited from outside the tree", why=f"the walk starts with `{unparse(par) if par is not None else None}` as the root's parent: its Resources / MediaBox / CropBox / Rotate entries are inherited by every page although it is not a page-tree node (7.7.3.4)")
 
     # ---------------------------------------------------------------- R2
     _selection(model, rep)
@@ -139,7 +147,7 @@ def run(model: Model, rep: Report) -> None:
     r6 = rep.rule("C04-R6", "BIND", "parse_rect: four numbers in the order given (x0, y0, x1, y1), each converted with float; anything else is a PDFValueError", 1)
     pr = model.func("pdfminer.utils.parse_rect")
     spr = "".join(unparse(pr.node).split()).replace("(", "").replace(")", "")
-    r6.check("x0,y0,x1,y1=o" in spr and "returnfloatx0,floaty0,floatx1,floaty1" in spr and "exceptValueError,TypeError:" in spr and "raisePDFValueError'Couldnotparserectangle'" in spr, site(pr), pr.qualname, "(x0, y0, x1, y1) = o; floats in that order", why="parse_rect changed")
+    r6.check("x0,y0,x1,y1=o" in spr and "returnfloatx0,floaty0,floatx1,floaty1" in spr and any(isinstance(h, ast.ExceptHandler) and h.type is not None and {"ValueError", "TypeError"} <= {unparse(e) for e in (h.type.elts if isinstance(h.type, ast.Tuple) else [h.type])} for h in ast.walk(pr.node)) and "raisePDFValueError'Couldnotparserectangle'" in spr, site(pr), pr.qualname, "(x0, y0, x1, y1) = o; floats in that order", why="parse_rect changed")
 
 
 def _objid_name(dfs: FuncInfo) -> str:
@@ -293,6 +301,49 @@ def _page_ctm(model: Model, rep: Report) -> None:
     src = unparse(bp.node).replace(" ", "")
     okp = "=apply_matrix_rect(ctm,page.mediabox)" in src and "(0,0,abs(x0-x1),abs(y0-y1))" in src and "LTPage(self.pageno,mediabox)" in src
     r4.check(okp, site(bp), bp.qualname, "the page box is (0, 0, |dx|, |dy|) of the transformed MediaBox", why="page box computation changed")
+
+
+def _ordered_corners(model: Model, rep: Report) -> None:
+    """C04-R4 proves the corner images are {0, W} x {0, H} with W = x1 - x0, H = y1 - y0: that is a box with its corner at the
+    origin only when W, H >= 0.  A PDF rectangle may be written from any two opposite corners (7.9.5), so the coordinates that
+    enter the matrices have to be put in order first."""
+    r = rep.rule("C04-R8", "NORMFORM", "the MediaBox corners are put in order (min/max per axis) before the page CTM is built from them", 2)
+    pp = model.func("pdfminer.pdfinterp.PDFPageInterpreter.process_page")
+    names = None
+    unpack = None
+    for n in walk_no_nested(pp.node):
+        if isinstance(n, ast.Assign) and unparse(n.value) == "page.mediabox" and isinstance(n.targets[0], ast.Tuple):
+            names = [unparse(e) for e in n.targets[0].elts]
+            unpack = n
+    if not names or len(names) != 4 or unpack is None:
+        raise AnchorMissing("process_page: (x0, y0, x1, y1) = page.mediabox not found")
+    ctm_first = min((n.lineno for n in walk_no_nested(pp.node) if isinstance(n, ast.Assign) and unparse(n.targets[0]) == "ctm"), default=None)
+    if ctm_first is None:
+        raise AnchorMissing("process_page: no assignment to ctm")
+
+    def ordered(lo: str, hi: str) -> bool:
+        # lo is bound to min(lo, hi) and hi to max(lo, hi) (or the pair to sorted(...)) by top-level statements between the
+        # unpacking and the first matrix
+        got_lo = got_hi = False
+        for st in pp.node.body:  # type: ignore[attr-defined]
+            if not (isinstance(st, ast.Assign) and unpack.lineno < st.lineno < ctm_first):
+                continue
+            tg = st.targets[0]
+            pairs = list(zip(tg.elts, st.value.elts)) if isinstance(tg, ast.Tuple) and isinstance(st.value, ast.Tuple) and len(tg.elts) == len(st.value.elts) else [(tg, st.value)]
+            if isinstance(tg, ast.Tuple) and [unparse(e) for e in tg.elts] == [lo, hi] and isinstance(st.value, ast.Call) and (dotted(st.value.func) or "") == "sorted" and len(st.value.args) == 1 and isinstance(st.value.args[0], (ast.Tuple, ast.List)) and sorted(unparse(e) for e in st.value.args[0].elts) == sorted([lo, hi]) and not st.value.keywords:
+                return True
+            for t, v in pairs:
+                if isinstance(v, ast.Call) and (dotted(v.func) or "") in ("min", "max") and not v.keywords:
+                    args = v.args[0].elts if len(v.args) == 1 and isinstance(v.args[0], (ast.Tuple, ast.List)) else v.args
+                    if sorted(unparse(a) for a in args) == sorted([lo, hi]):
+                        if unparse(t) == lo and dotted(v.func) == "min":
+                            got_lo = True
+                        if unparse(t) == hi and dotted(v.func) == "max":
+                            got_hi = True
+        return got_lo and got_hi
+
+    for lo, hi, axis in ((names[0], names[2], "x"), (names[1], names[3], "y")):
+        r.check(ordered(lo, hi), site(pp, unpack), pp.qualname, f"{axis}: {lo} <= {hi} where the matrices are built ({lo} = min, {hi} = max of the two)", why=f"`{lo}` and `{hi}` go into the page CTM as the document wrote them: for a MediaBox written from the other pair of corners (e.g. [200 100 0 0]) the page content lands outside the page box")
 
 
 def _selection_breaks(model: Model, rep: Report) -> None:
